@@ -452,7 +452,11 @@ func genDFile(r *Rand, tier string) *dFile {
 				if len(ta.Tags) == 0 && len(ta.KV) == 0 {
 					ta.Tags = []string{Pick(r, []string{"traced", "audited"})}
 				}
-				if r.Chance(2, 3) {
+				if n := len(a.Collector); n > 0 && a.Collector[n-1].K == "call" && r.Chance(1, 2) {
+					// a second template for the same call, adding to the same array attributes
+					prev := a.Collector[n-1]
+					a.Collector = append(a.Collector, dTemplate{K: "call", T: prev.T, Target: prev.Target, Attrs: dAttrs{Tags: []string{Pick(r, []string{"second", "extra"})}, KV: []dKV{}}})
+				} else if r.Chance(2, 3) {
 					a.Collector = append(a.Collector, dTemplate{K: "call", T: Pick(r, c02EpNames), Target: append([]string{}, Pick(r, g.apps)...), Attrs: ta})
 				} else {
 					a.Collector = append(a.Collector, dTemplate{K: "endpoint", T: a.Eps[r.Intn(len(a.Eps))].Name, Target: []string{}, Attrs: ta})
@@ -907,6 +911,9 @@ func (l *c02Layout) endpoint(b *strings.Builder, u string, e dEp) {
 	}
 	// named values may also be written as annotation lines at the head of the body
 	kvInline := !l.annoBody || l.r.Bool() || len(e.Attrs.KV) == 0
+	if len(e.Stmts) == 0 {
+		kvInline = false // a body of annotation lines only
+	}
 	l.mark(b, u, esc(e.Name))
 	b.WriteString(u + esc(e.Name) + long + l.params(e.Params) + l.inline(e.Attrs, kvInline) + ":\n")
 	if !kvInline {
@@ -931,11 +938,13 @@ func renderDFileMarked(f *dFile, r *Rand, file string, marks *[]c08Mark, stmtBas
 	}
 	var b strings.Builder
 	b.WriteString(header)
-	if r.Chance(1, 4) {
+	if r.Chance(1, 4) && !c08NoLeadingFiller {
 		b.WriteString("# leading comment\n\n")
 	}
-	for _, a := range f.Apps {
-		l.filler(&b, "")
+	for ai, a := range f.Apps {
+		if !(c08NoLeadingFiller && ai == 0) {
+			l.filler(&b, "")
+		}
 		name := escParts(a.Parts)
 		if a.Long != "" {
 			name += " " + l.q(a.Long)
